@@ -153,9 +153,20 @@ static unsigned hdr_ref_fields_len (const unsigned char *h) { return body_ref_u3
 static int hdr_ref_message_type (const unsigned char *h) { return h[1]; }
 static int hdr_ref_flag (const unsigned char *h, unsigned flag) { return (h[2] & flag) != 0; }
 
+/* alignment padding up to a multiple of a (a power of two <= 8) inside [0,end): "must always be made up of nul bytes".
+ * The position is advanced unconditionally (see hdr_ref_variant). */
+static int hdr_ref_align (const unsigned char *h, int end, int *pos, int a)
+{
+  int from = *pos, to = (from + a - 1) & ~(a - 1), k, ok = 1;
+  *pos = to;
+  if (to > end) return 0;
+  for (k = 0; k < 7; k++) if (from + k < to && h[from + k] != 0) ok = 0;
+  return ok;
+}
+
 /* one VARIANT at h[*pos..) inside [0,end): "The marshaled SIGNATURE of a single complete type, followed by a
  * marshaled value with the type given in the signature."  Outputs the offset of the signature text and of the
- * (aligned) value.  Returns 1 iff well-formed. */
+ * (aligned) value.  Returns 1 iff well-formed, 0 if not, -1 if the value contains a nested variant. */
 static int hdr_ref_variant (const unsigned char *h, int end, int *pos, int le, int *sig_at, int *sig_len, int *val_at)
 {
   int n, a;
@@ -168,9 +179,10 @@ static int hdr_ref_variant (const unsigned char *h, int end, int *pos, int le, i
   *pos += n + 1;
   a = body_ref_alignment (h[*sig_at]);
   if (a == 0) return 0;
-  { int p2 = *pos; if (!body_ref_pad (h, end, &p2, a)) return 0; *val_at = p2; }
-  /* fixed-size basic types ("Marshaling": BYTE 1; INT16/UINT16 2; BOOLEAN/INT32/UINT32/UNIX_FD 4; INT64/UINT64/DOUBLE 8):
-   * decoded here, with the position advanced unconditionally (keeps positions concrete for the model checker) */
+  { int p2 = *pos; int okpad = hdr_ref_align (h, end, &p2, a); *val_at = p2; if (!okpad) return 0; }
+  /* Basic types are decoded here, with the position advanced UNCONDITIONALLY before the checks (a failed check ends
+   * the decoding anyway; this keeps positions concrete for the model checker where lengths are concrete).
+   * fixed size ("Marshaling"): BYTE 1; INT16/UINT16 2; BOOLEAN/INT32/UINT32/UNIX_FD 4; INT64/UINT64/DOUBLE 8 */
   if (n == 1 && (a == 2 || a == 8 || h[*sig_at] == 'y' || h[*sig_at] == 'b' || h[*sig_at] == 'i' || h[*sig_at] == 'u' || h[*sig_at] == 'h')
       && h[*sig_at] != '(' && h[*sig_at] != '{')
     {
@@ -180,6 +192,22 @@ static int hdr_ref_variant (const unsigned char *h, int end, int *pos, int le, i
       if (h[*sig_at] == 'b') { unsigned bv = body_ref_u32 (h, *val_at, le); return bv == 0 || bv == 1; }
       return 1;
     }
+  /* STRING / OBJECT_PATH: UINT32 length, content, NUL; SIGNATURE: BYTE length, content, NUL */
+  if (n == 1 && (h[*sig_at] == 's' || h[*sig_at] == 'o' || h[*sig_at] == 'g'))
+    {
+      int t = h[*sig_at], lw = t == 'g' ? 1 : 4; unsigned L;
+      if (*val_at + lw > end) return 0;
+      L = t == 'g' ? h[*val_at] : body_ref_u32 (h, *val_at, le);
+      *pos = *val_at + lw + (int) L + 1;
+      if (L > (unsigned) (end - *val_at - lw) || L + 1 > (unsigned) (end - *val_at - lw)) return 0;
+      if (h[*pos - 1] != 0) return 0;
+      if (t == 's') return body_ref_utf8 (h + *val_at + lw, (int) L);
+      if (t == 'o') return body_ref_path (h + *val_at + lw, (int) L);
+      return spec_signature (h + *val_at + lw, (int) L);
+    }
+  /* containers: a variant inside a field value is legal D-Bus, but body_ref_value (spec/body_ref.h) does not decode
+   * 'v': answer -1 = "outside what this reference decodes"; the bounded units exclude these inputs and say so */
+  { int k; for (k = 0; k < n; k++) if (h[*sig_at + k] == 'v') return -1; }
   return body_ref_value ((const char *) h + *sig_at, 0, h, end, pos, le, 2);
 }
 
@@ -203,7 +231,7 @@ static int hdr_ref_walk (const unsigned char *h, int n, struct hdr_ref_fields *o
       int code, sig_at, sig_len, v_at;
       if (pos == end) { out->wf = 1; return 1; }
       if (pos > end) return 0;
-      if (!body_ref_pad (h, end, &pos, 8)) return 0;          /* STRUCT: 8-aligned */
+      if (!hdr_ref_align (h, end, &pos, 8)) return 0;         /* STRUCT: 8-aligned */
       if (pos + 1 > end) return 0;
       code = h[pos]; pos += 1;
       { int vr = hdr_ref_variant (h, end, &pos, le, &sig_at, &sig_len, &v_at); if (vr <= 0) { out->wf = vr; return vr; } }
